@@ -75,6 +75,10 @@ type Arrival struct {
 	Query   string      // text for QUERY/PREPARE
 }
 
+// FlushTokenPrefix marks requests the oracles send to push earlier requests through the proxy-backend pipeline (every
+// backend connection is FIFO): the backend answers them with the echo row at once, whatever the scenario's script says.
+const FlushTokenPrefix = "Tffff"
+
 // Outcome is what the backend does with an arrival.
 type Outcome struct {
 	Name       string          // label for logs/oracles ("Rows", "Unavailable", "Silence", "DropBefore", ...)
@@ -850,7 +854,9 @@ func (x *Conn) data(hdr *frame.Header, body *frame.Body, raw []byte, tok string,
 	c.mu.Unlock()
 	a := &Arrival{Token: tok, N: n, K: k, Host: x.Host.Idx, Conn: x, Stream: hdr.StreamId, OpCode: hdr.OpCode, Header: hdr, Body: body, RawBody: raw, Query: query}
 	var o Outcome
-	if script != nil {
+	if strings.HasPrefix(tok, FlushTokenPrefix) {
+		o = Rows() // flush requests of the oracles are answered at once whatever the scenario scripts
+	} else if script != nil {
 		o = script(a)
 	}
 	if o.Name == "" {
